@@ -84,4 +84,8 @@ def mapSet (m : List (Str × Str)) (k v : Str) : List (Str × Str) :=
   | [] => [(k, v)]
   | (k', v') :: rest => if k' = k then (k, v) :: rest else (k', v') :: mapSet rest k v
 
+/-- `for k, v := range m2 { m1[k] = v }`: the entries of `m2` written into `m1` (in the order in which `m2`
+    was written; as a finite map the result does not depend on the order) -/
+def mapMerge (m1 m2 : List (Str × Str)) : List (Str × Str) := m2.foldl (fun acc kv => mapSet acc kv.1 kv.2) m1
+
 end Restful.Imp
